@@ -15,6 +15,20 @@ def fuzz(pkg, run, t="45s"):
     return {"pkg": pkg, "run": run, "kind": "fuzz", "tiers": ("thorough",), "fuzztime": {"thorough": t}}
 
 CHECKS = {
+    "C12": {
+        "level": "exploration",
+        "assumptions": ["frozen clock, steps whole ms + 1us against whole-ms durations (no knife-edge equality)", "comparisons within 1e-9 relative of the ramp are not asserted (the code computes the ramp in float64)"],
+        "jobs": [
+            rapid("props/c12", "^TestC12_Ramp$", 1500, 15000, shards_t=8),
+        ],
+    },
+    "C05": {
+        "level": "exploration",
+        "assumptions": ["frozen clock; clock steps are whole ms + 1us while configured durations are whole ms, so 'now == deadline' (which the statement does not define) cannot occur", "CircuitBreaker.String() is read only at quiescent points"],
+        "jobs": [
+            rapid("props/c05", "^TestC05_Shield$", 2500, 25000, shards_t=8),
+        ],
+    },
     "C04": {
         "level": "exploration",
         "assumptions": ["the gate handler serialises the schedule at handler granularity; instruction-level interleavings inside acquire/release are only sampled by the real-goroutine variant", "porcupine's linearizability checker is trusted"],
@@ -83,6 +97,16 @@ CHECKS = {
 
 # Texts for MANIFEST.json (level text, trusted base, technique) per claimed property.
 MANIFEST_TEXT = {
+    "C12": {
+        "level": "Generated recovery scenarios (up to 3 trip/recovery cycles per case; idle gaps before recovery starts; bursts, trickles and strides during recovery; good or failing re-admitted requests) under a frozen clock; after every request of a recovery the two-sided ramp condition of the statement is checked in exact integer arithmetic, plus: no early return to standby, first request after the period passes and the state is standby, on-standby/on-tripped effects once per transition, full shield after a re-trip. Exploration of bounded schedules.",
+        "note": "Trusts the gate/clock harness; the 1e-9 boundary band around the ramp is counted (class boundary-not-asserted) and not asserted.",
+        "technique": "property-based testing (rapid) over harness-owned schedules under a frozen clock; exact-rational ramp invariant",
+    },
+    "C05": {
+        "level": "Generated schedules of arrivals, completions (any order, any status) and clock advances under a frozen clock with a gate as protected handler, for generated fallback/recovery/check durations and several error-ratio conditions; the shield interval [T, T+fallback) is derived from observation (String() at quiescent points) and every arrival inside it must be answered by the fallback; standby passes everything; observed state changes must follow the allowed cycle and be caused by the right kind of step. Exploration of schedules up to ~60 steps.",
+        "note": "Trusts the gate/clock harness; knife-edge equality of now and a deadline is excluded by construction.",
+        "technique": "property-based testing (rapid) over harness-owned schedules under a frozen clock; observation-derived interval invariant",
+    },
     "C04": {
         "level": "Generated schedules with the harness owning the interleaving (gate handler: enter / block / return or panic) are compared step by step with a per-source in-flight counter model in both directions (never above the limit, never rejected below it), including slot return after panics and a drain-and-refill epilogue; unserialised real goroutines (race build) produce acquire/release histories checked for linearizability against the same model with porcupine. Exploration: handler-granular schedules up to 40 steps, sampled goroutine interleavings.",
         "note": "Trusts the gate harness (a step that neither enters nor returns within 20 s of real time is reported as infrastructure failure, not as a verdict) and porcupine v1.3.0.",
